@@ -177,26 +177,31 @@ theorem eventStep_shift (k : Int) (p : CParams) (rr : Iv) (ri corr : List Iv) (i
             · rfl
           · rfl
 
-theorem microStep_shift (k : Int) (emap : List (Int × MEvent)) (isoI : List Iv) (i : Int) (acc : List Iv) :
-    microStep emap (shiftL k isoI) i (shiftL k acc) = shiftExL k (microStep emap isoI i acc) := by
-  simp only [microStep, pyGet?_shiftL]
-  cases emap.lookup (-i - 1) with
-  | none => rfl
-  | some e =>
-    simp only
-    cases pyGet? isoI e.iso.1 <;> simp [shiftExL, shiftL_append, shiftL]
+theorem getAll_shift (k : Int) (l : List Iv) (js : List Int) :
+    getAll (shiftL k l) js = (getAll l js).map (shiftL k) := by
+  induction js with
+  | nil => rfl
+  | cons j js ih =>
+    simp only [getAll, pyGet?_shiftL, ih]
+    cases pyGet? l j <;> cases getAll l js <;> simp [shiftL]
 
-theorem eventLoop_shift (k : Int) (p : CParams) (emap : List (Int × MEvent)) (rr : Iv) (ri corr : List Iv) (isoR : Iv)
+theorem microStep_shift (k : Int) (mm : List (Int × Int)) (isoI : List Iv) (i : Int) (acc : List Iv) :
+    microStep mm (shiftL k isoI) i (shiftL k acc) = shiftExL k (microStep mm isoI i acc) := by
+  simp only [microStep, getAll_shift]
+  cases getAll isoI (microAt mm i) <;> simp [shiftExL, shiftL_append]
+
+theorem eventLoop_shift (k : Int) (p : CParams) (emap : List (Int × MEvent)) (mm : List (Int × Int)) (rr : Iv)
+    (ri corr : List Iv) (isoR : Iv)
     (isoI : List Iv) (fuel : Nat) (i : Int) (reg : Iv) (acc : List Iv) :
-    eventLoop p emap (shiftIv k rr) (shiftL k ri) (shiftL k corr) (shiftIv k isoR) (shiftL k isoI) fuel i
+    eventLoop p emap mm (shiftIv k rr) (shiftL k ri) (shiftL k corr) (shiftIv k isoR) (shiftL k isoI) fuel i
         (shiftIv k reg) (shiftL k acc)
-      = shiftExRes k (eventLoop p emap rr ri corr isoR isoI fuel i reg acc) := by
+      = shiftExRes k (eventLoop p emap mm rr ri corr isoR isoI fuel i reg acc) := by
   induction fuel generalizing i reg acc with
   | zero => rfl
   | succ f ih =>
     simp only [eventLoop, shiftL_length, microStep_shift, pyGet?_shiftL, eventStep_shift]
     split
-    · cases microStep emap isoI i acc with
+    · cases microStep mm isoI i acc with
       | error x => rfl
       | ok acc1 =>
         simp only [shiftExL]
@@ -219,14 +224,16 @@ theorem eventLoop_shift (k : Int) (p : CParams) (emap : List (Int × MEvent)) (r
             obtain ⟨reg', acc2⟩ := q
             simp only [shiftExRes]
             exact ih _ _ _
-    · rfl
+    · cases microStep mm isoI (corr.length : Int) acc with
+      | error x => rfl
+      | ok acc1 => rfl
 
 theorem processEvents_shift (k : Int) (p : CParams) (err : Nat → Bool → Int × Int) (known : List Iv)
-    (emap : List (Int × MEvent)) (rr : Iv) (ri : List Iv) (isoR : Iv) (isoI : List Iv) :
-    processEvents p err (shiftL k known) emap (shiftIv k rr) (shiftL k ri) (shiftIv k isoR) (shiftL k isoI)
-      = shiftExRes k (processEvents p err known emap rr ri isoR isoI) := by
+    (emap : List (Int × MEvent)) (mm : List (Int × Int)) (rr : Iv) (ri : List Iv) (isoR : Iv) (isoI : List Iv) :
+    processEvents p err (shiftL k known) emap mm (shiftIv k rr) (shiftL k ri) (shiftIv k isoR) (shiftL k isoI)
+      = shiftExRes k (processEvents p err known emap mm rr ri isoR isoI) := by
   simp only [processEvents, correctedIntrons_shift, eventFuel, shiftL_length]
-  exact eventLoop_shift k p emap rr ri _ isoR isoI _ 0 rr []
+  exact eventLoop_shift k p emap mm rr ri _ isoR isoI _ 0 rr []
 
 theorem buildExons_shift (k : Int) (reg : Iv) (ni : List Iv) :
     buildExons (shiftIv k reg) (shiftL k ni) = shiftL k (buildExons reg ni) := by
@@ -250,5 +257,20 @@ theorem validChain_shift (k : Int) (l : List Iv) : validChain (shiftL k l) = val
   have h : ∀ e : Iv, (e.1 + k ≤ e.2 + k) ↔ (e.1 ≤ e.2) := by intro e; omega
   rw [validChain, chainSorted_shift]
   simp only [validChain, shiftL, List.all_map, Function.comp_def, shiftIv_fst, shiftIv_snd, h]
+
+theorem intronsSpaced_shift (k : Int) (l : List Iv) : intronsSpaced (shiftL k l) = intronsSpaced l := by
+  fun_induction intronsSpaced l with
+  | case1 => rfl
+  | case2 a => rfl
+  | case3 a b t ih =>
+    have h : (a.2 + k + 1 < b.1 + k) ↔ (a.2 + 1 < b.1) := by omega
+    simp only [shiftL_cons] at ih ⊢
+    simp only [intronsSpaced, ih, shiftIv_fst, shiftIv_snd, h]
+
+/-- `is_valid_intron_chain` does not see a translation -/
+theorem validIntronChain_shift (k : Int) (l : List Iv) : validIntronChain (shiftL k l) = validIntronChain l := by
+  have h : ∀ e : Iv, (e.1 + k ≤ e.2 + k) ↔ (e.1 ≤ e.2) := by intro e; omega
+  rw [validIntronChain, intronsSpaced_shift]
+  simp only [validIntronChain, shiftL, List.all_map, Function.comp_def, shiftIv_fst, shiftIv_snd, h]
 
 end IsoVerif.Lemmas.C11
